@@ -39,7 +39,7 @@ CLAIMED = {
    design="3 C07", technique="static analysis: operand provenance at call sites, match-arm coverage vs type definition, CFG back-edge/dominance checks"),
  "C10": dict(
    text="For each of the renderer's overrides every non-span field of the node type must be read, handed to the default traversal or to a helper (else two different libraries render alike); every constant word/symbol the renderer writes must be in the lexer/grammar vocabulary; sibling matches over StringType must agree on quotes. Today's findings are frozen by the rendered fixtures and recorded as known findings. parse(render(L)) == L itself is not decided.",
-   design="3 C10", technique="static analysis: field-read completeness over MIR per override, vocabulary inclusion against lexer attributes and grammar literals, sibling cross-check"),
+   design="3 C10", technique="static analysis: grammar/writer token agreement (PEG reader x constant strings of the renderer's MIR), field-read completeness over MIR per override, vocabulary inclusion against lexer attributes and grammar literals, sibling cross-check"),
  "C14": dict(
    text="Byte-reading/decoding calls in product code occur only in source::path_to_source; it uses encoding_rs::Encoding::decode (BOM sniffing) over the constants [UTF_8, WINDOWS_1252] in that order (statics resolved from MIR pointer constants) and accepts output only when had_errors is false; every string range-index site reachable from the CLI/LSP entry points is discharged or triaged, and map_label's slice bounds are the label's own location fields. Cross-encoding equality of positions is not decided.",
    design="3 C14", technique="static analysis: who-may-call over resolved callees, constant/static resolution, CFG gate check, slice-site inventory"),
@@ -146,6 +146,19 @@ ADD7 = {
  "C15": " Round 7: a `//` comment token excludes its line break (R-C15-linecomment); R-C15-comment.",
 }
 ADD8 = {p: " Round 8: rules are evaluated on functions with same-file helpers spliced in and on function+closure units where that matters; the thorough tier also applies 45 behaviour-preserving patches (neutral/) and fails on any report (T-neutral)." for p in ["C%02d" % i for i in range(1, 16)]}
+ADD9 = {
+ "C02": " Round 9: declarations are told apart by name or identity, never by comparing their contents (R-C02-identity); the analyzer never takes a name apart (R-C02-wholename).",
+ "C03": " Round 9: the glue around the analysis never decides on the code of a problem (R-C03-anycode).",
+ "C04": " Round 9: no element-by-element walk over an integer range whose bounds are numbers written in the source (R-C04-magnitude); no two alternatives of an ordered choice enter the same self-embedding rule after the same tokens unless it is #[cache]d (R-C04-backtrack, grammar analysis; found and fixed 2^depth re-parsing); the lexer reports a run of invalid text once (R-C04-errrun; found and fixed quadratic output); the loop-progress rule knows that cutting a text at a found position is no progress; indent()/outdent() are unconditional +1/-1.",
+ "C05": " Round 9: every call of the CLI's handle_diagnostics made where a project exists passes it (R-C05-display; echo showed labels against empty text, fixed); a node built by a fold takes its position-bearing parts from the node it replaces (R-C05-synth); directly represented variables now carry positions (6 known findings fixed).",
+ "C07": " Round 9: the current-container field is found through a helper that every override calls with the declaration's own name.",
+ "C08": " Round 9: only a keyword that ends a statement arms the terminator inserter, evaluated for every TokenType variant against the grammar (R-C08-endif-arm); a function that singles out comment tokens looks at no more than the opener of their text (R-C08-commenttext).",
+ "C10": " Round 9: token agreement between grammar and writer (R-C10-tokens): for every node kind, among the productions with own terminals that build it at least one has all its terminals spelled by a writer of the node (override, field readers, nearest overriding ancestors beyond what their own productions need); found 26 nodes whose delimiters/keywords were never written, 14 repaired by fix: commits, 5 frozen by fixtures recorded as known. Also: the renderer's own panic inventory and indentation balance (R-C10-panic/-pair), no token-level pass singles out bracket tokens (R-C10-delimcount).",
+ "C11": " Round 9: every problem LspProject::semantic returns comes out of its one call of Project::semantic (R-C11-origin).",
+ "C12": " Round 9: R-C12-magnitude/-backtrack/-errrun (as C04: the same parser and lexer run on didOpen/didChange).",
+ "C13": " Round 9: an Err that is stored and handed to a loop that matches every item is no obligation of the arm that stores it (R-C13-emit); non-emptiness is followed through one-to-one adaptors (R-C13-nonempty).",
+ "C14": " Round 9: nothing is decided on the encoded size of a source file (R-C14-bytesize).",
+}
 NA_REASON = "check not built yet (round 1 in progress); see DESIGN.md section 3 for the planned static rules"
 props = [json.loads(l) for l in open("/verif/properties.jsonl")]
 checks = []
@@ -160,7 +173,7 @@ for p in props:
         "evidence_file": "/verif/evidence/%s.json" % p["id"],
         "replay_cmd_template": "./check %s --replay {path}" % p["id"],
         "engine": "mirfacts+rules",
-        "level_claimed": {"category": "other", "text": c["text"] + ADD.get(p["id"], "") + ADD3.get(p["id"], "") + ADD4.get(p["id"], "") + ADD5.get(p["id"], "") + ADD6.get(p["id"], "") + ADD7.get(p["id"], "") + ADD8.get(p["id"], ""), "design_ref": c["design"] + ", R2, R3, R4, R5, R6, R7, R8"},
+        "level_claimed": {"category": "other", "text": c["text"] + ADD.get(p["id"], "") + ADD3.get(p["id"], "") + ADD4.get(p["id"], "") + ADD5.get(p["id"], "") + ADD6.get(p["id"], "") + ADD7.get(p["id"], "") + ADD8.get(p["id"], "") + ADD9.get(p["id"], ""), "design_ref": c["design"] + ", R2, R3, R4, R5, R6, R7, R8, R9"},
         "level_note": NOTE,
         "technique": c["technique"],
     })
